@@ -88,7 +88,19 @@ func (e *env) optionsFor(v ValOpts, auth openapi3filter.AuthenticationFunc) *ope
 	return o
 }
 
+// accepts is the outcome the simulator scripts for the callback (nobody is
+// accepted when the caller configured no callback at all).
+func (e *env) accepts(name string, scopes []string) bool {
+	if e.s.NoAuthFunc {
+		return false
+	}
+	return acceptsScoped(e.s.Auth[name], scopes)
+}
+
 func (e *env) options(v ValOpts, auth openapi3filter.AuthenticationFunc) *openapi3filter.Options {
+	if e.s.NoAuthFunc {
+		auth = nil // the caller configured no callback: every scheme is unauthenticated
+	}
 	return &openapi3filter.Options{
 		MultiError: v.MultiError, SkipSettingDefaults: v.SkipDefaults, ExcludeRequestBody: v.ExcludeBody,
 		ExcludeRequestQueryParams: v.ExcludeQuery, ExcludeResponseBody: v.ExcludeRespBody, IncludeResponseStatus: v.IncludeStatus,
@@ -293,7 +305,7 @@ func (Sim) Run(raw json.RawMessage, prop string, keep bool) (res simfw.Result) {
 		pnames = append(pnames, p.In[:1]+p.Name+p.Explode)
 	}
 	res.Class = simfw.ClassKey("req", s.Doc.SecOp, s.Doc.SecDoc, strings.Join(pnames, ","), s.Doc.BodyKind, s.Req.BodyMode, s.Req.GetBody, s.Req.CLUnknown,
-		len(s.Req.Chunk.Sizes), s.Req.Chunk.FaultAt > 0, fmt.Sprint(s.Vals), s.Auth["a"], s.Auth["b"], s.Auth["c"])
+		len(s.Req.Chunk.Sizes), s.Req.Chunk.FaultAt > 0, fmt.Sprint(s.Vals), s.Auth["a"], s.Auth["b"], s.Auth["x-c"])
 	res.Nontrivial = true
 	return
 }
@@ -402,7 +414,7 @@ func (e *env) request(world *World, docBytes []byte, q ReqSpec, again bool) (han
 	var nCalls []authCall
 	nAuth := func(_ context.Context, in *openapi3filter.AuthenticationInput) error {
 		nCalls = append(nCalls, authCall{in.SecuritySchemeName, strings.Join(in.Scopes, ",")})
-		if acceptsScoped(s.Auth[in.SecuritySchemeName], in.Scopes) {
+		if e.accepts(in.SecuritySchemeName, in.Scopes) {
 			return nil
 		}
 		return errors.New("rejected")
@@ -440,8 +452,12 @@ func (e *env) request(world *World, docBytes []byte, q ReqSpec, again bool) (han
 					nverr = fmt.Errorf("neutral panic: %v", p)
 				}
 			}()
+			nopts := e.options(v, nAuth)
+			if len(auths) > 0 {
+				nopts.AuthenticationFunc = nAuth // (an explicit callback also where the run's caller configured none)
+			}
 			nverr = openapi3filter.ValidateRequest(context.Background(), &openapi3filter.RequestValidationInput{
-				Request: nreq, PathParams: npp, Route: nroute, Options: e.options(v, nAuth)})
+				Request: nreq, PathParams: npp, Route: nroute, Options: nopts})
 		}()
 		return nverr, true
 	}
@@ -658,15 +674,15 @@ func (e *env) request(world *World, docBytes []byte, q ReqSpec, again bool) (han
 				fmt.Sprintf("validation #1 says %v; the same request as one in-memory chunk with a non-reading callback says %v (chunk plan %+v, GetBody=%q, ContentLength unknown=%v, auth=%v)", verdicts[0], nverr, q.Chunk, q.GetBody, q.CLUnknown, s.Auth))
 		} else if got, want := parts(verdicts[0]), nAllParts; s.Vals[0].MultiError && !reflect.DeepEqual(got, want) {
 			violate("C07", "failing-parts", "failing-parts", fmt.Sprintf("failing parts %v; neutral run %v (multi-error=%v, auth=%v)", got, want, s.Vals[0].MultiError, s.Auth))
-		} else if s.Vals[0].MultiError && !partsIndependent(got, partsWithAcceptingCallback(), SecurityModel(s.Doc, func(name string, scopes []string) bool { return acceptsScoped(s.Auth[name], scopes) })) {
+		} else if s.Vals[0].MultiError && !partsIndependent(got, partsWithAcceptingCallback(), SecurityModel(s.Doc, e.accepts)) {
 			// "the errors returned are exactly the failing parts": whether parameters and body fail does not
 			// depend on what the callback says, and the security part is what the requirement semantics say
-			violate("C07", "failing-parts", "failing-parts-not-independent", fmt.Sprintf("multi-error validation reports %v; with a callback accepting everything the same request fails in %v, and the requirement semantics say security passes=%v: the failing parts are not their union (auth=%v)", got, partsWithAcceptingCallback(), SecurityModel(s.Doc, func(name string, scopes []string) bool { return acceptsScoped(s.Auth[name], scopes) }), s.Auth))
+			violate("C07", "failing-parts", "failing-parts-not-independent", fmt.Sprintf("multi-error validation reports %v; with a callback accepting everything the same request fails in %v, and the requirement semantics say security passes=%v: the failing parts are not their union (auth=%v)", got, partsWithAcceptingCallback(), SecurityModel(s.Doc, e.accepts), s.Auth))
 		} else if !s.Vals[0].MultiError && !subset(got, want) {
 			violate("C07", "failing-parts", "failing-parts", fmt.Sprintf("fail-fast validation names %v, which is not among the failing parts %v of the neutral run (auth=%v)", got, want, s.Auth))
 		}
 		// the security part against the reference model of the requirement semantics
-		wantSecOK := SecurityModel(s.Doc, func(name string, scopes []string) bool { return acceptsScoped(s.Auth[name], scopes) })
+		wantSecOK := SecurityModel(s.Doc, e.accepts)
 		gotSecOK := true
 		for _, p := range parts(verdicts[0]) {
 			if p == "security" || p == "request" {
@@ -777,6 +793,11 @@ func (e *env) request(world *World, docBytes []byte, q ReqSpec, again bool) (han
 			switch {
 			case same:
 				// fine unless defaults had to appear
+				if !defaultsBody && defaultsOn && lastDefaultsAccepted >= 0 && !s.Vals[lastDefaultsAccepted].ExcludeBody && e.flatBodyLacksDefault(req, orig) {
+					// a form / multipart body accepted with default-setting on, forwarded as received although a
+					// property with a schema default is absent (the pinned tree rejects instead: known finding K2)
+					violate("C13", "R2-body-defaults", "body-defaults-missing:"+s.Doc.BodyKind, fmt.Sprintf("accepted with default-setting on, but the forwarded %s body is the original %q, which lacks a property that has a schema default", s.Doc.BodyKind, simfw.Trunc(string(orig), 160)))
+				}
 				if haveExpected && lastDefaultsAccepted >= 0 && !s.Vals[lastDefaultsAccepted].ExcludeBody {
 					var ov any
 					json.Unmarshal(orig, &ov)
@@ -902,6 +923,47 @@ func (e *env) flatBodyWithDefaults(req *http.Request, orig, final []byte) bool {
 	return added && reflect.DeepEqual(map[string][]string(ff), expect)
 }
 
+// flatBodyLacksDefault: orig is a well-formed form / multipart body in which a
+// property with a schema default is absent.
+func (e *env) flatBodyLacksDefault(req *http.Request, orig []byte) bool {
+	d := e.s.Doc
+	if d.Body == nil || (d.BodyKind != "form" && d.BodyKind != "multipart") || len(orig) == 0 {
+		return false // (no body at all: nothing to put defaults into)
+	}
+	var fields map[string][]string
+	switch d.BodyKind {
+	case "form":
+		v, err := url.ParseQuery(string(orig))
+		if err != nil {
+			return false
+		}
+		fields = v
+	default:
+		_, params, err := mime.ParseMediaType(req.Header.Get("Content-Type"))
+		if err != nil {
+			return false
+		}
+		fields = map[string][]string{}
+		mr := multipart.NewReader(bytes.NewReader(orig), params["boundary"])
+		for {
+			part, err := mr.NextPart()
+			if err == io.EOF {
+				break
+			}
+			if err != nil {
+				return false
+			}
+			fields[part.FormName()] = append(fields[part.FormName()], "")
+		}
+	}
+	for name, n := range d.Body.Props {
+		if _, has := fields[name]; !has && n.Default != nil {
+			return true
+		}
+	}
+	return false
+}
+
 // sameScalar: the text is a rendering of the default value (numbers by value,
 // everything else by its plain text).
 func sameScalar(text string, def any) bool {
@@ -955,6 +1017,11 @@ func partsIndependent(got, withAccepting []string, securityPasses bool) bool {
 	}
 	return reflect.DeepEqual(have, want) || (len(have) == 0 && len(want) == 0)
 }
+
+// seekBody is a body that can seek (a file, a buffered upstream response).
+type seekBody struct{ *bytes.Reader }
+
+func (seekBody) Close() error { return nil }
 
 func subset(a, b []string) bool {
 	in := map[string]bool{}
@@ -1034,6 +1101,14 @@ func (e *env) checkParamDefaults(before, after snapshot, v ValOpts, violate func
 		return f
 	}
 	for _, p := range e.s.Doc.EffectiveParams() {
+		if p.Content {
+			// a parameter declared through `content`: whether its default is populated is left open (the
+			// pinned tree does not); what is forwarded must validate again, which checkIdempotent sees
+			delete(aq, p.Name)
+			delete(bq, p.Name)
+			delete(expectQ, p.Name)
+			continue
+		}
 		if p.Default == nil {
 			continue
 		}
@@ -1141,7 +1216,7 @@ func (e *env) checkIdempotent(docBytes []byte, q ReqSpec, after snapshot, final 
 		return
 	}
 	auth := func(_ context.Context, in *openapi3filter.AuthenticationInput) error {
-		if acceptsScoped(e.s.Auth[in.SecuritySchemeName], in.Scopes) {
+		if e.accepts(in.SecuritySchemeName, in.Scopes) {
 			return nil
 		}
 		return errors.New("rejected")
@@ -1267,7 +1342,19 @@ func (e *env) response(world *World, docBytes []byte, p RespSpec, again bool) (r
 	defer zzsimrt.ResetMapOrder(0)
 	e.party = "validator"
 	st := simenv.NewStream("respbody", orig, p.Chunk, log, &e.party)
-	in, err := mkInput(world, st)
+	var body io.ReadCloser = st
+	switch {
+	case p.Form == "nobody" && len(orig) == 0:
+		body = http.NoBody
+		res.Probe("resp-body-is-nobody")
+	case p.Form == "seek" && len(orig) > 0 && p.Skip > 0:
+		// what the caller has not read yet is the body: the prefix is none of the validator's business
+		rd := bytes.NewReader(append(bytes.Repeat([]byte{'#'}, p.Skip), orig...))
+		rd.Seek(int64(p.Skip), io.SeekStart)
+		body = seekBody{rd}
+		res.Probe("resp-body-seekable-at-offset")
+	}
+	in, err := mkInput(world, body)
 	if err != nil {
 		res.Inconcl = "route: " + err.Error()
 		return
